@@ -367,6 +367,9 @@ func (e *Engine) skolemize(t *Term) *Term {
 // addGlobalFacts adds what is known about a package-level variable from its initialiser.
 func (e *Engine) addGlobalFacts(g *ssa.Global, c *Term, t types.Type) {
 	tb := e.tb
+	if e.globalAssigned(g) {
+		return // contents unknown: something in the package writes to it
+	}
 	// find the declaration
 	var spec *ast.ValueSpec
 	var idx int
@@ -534,4 +537,57 @@ func (e *Engine) globalStringLit(g *ssa.Global) (string, bool) {
 		return "", false
 	}
 	return s, true
+}
+
+
+// globalAssigned: some statement of the package assigns (part of) the variable or takes its address.
+func (e *Engine) globalAssigned(g *ssa.Global) bool {
+	name := g.Name()
+	root := func(x ast.Expr) string {
+		for {
+			switch y := x.(type) {
+			case *ast.IndexExpr:
+				x = y.X
+			case *ast.SelectorExpr:
+				x = y.X
+			case *ast.ParenExpr:
+				x = y.X
+			case *ast.StarExpr:
+				x = y.X
+			case *ast.Ident:
+				return y.Name
+			default:
+				return ""
+			}
+		}
+	}
+	found := false
+	for _, f := range e.astPkgs[g.Pkg.Pkg.Path()] {
+		ast.Inspect(f, func(n ast.Node) bool {
+			switch n := n.(type) {
+			case *ast.AssignStmt:
+				if n.Tok != token.DEFINE {
+					for _, l := range n.Lhs {
+						if root(l) == name {
+							found = true
+						}
+					}
+				}
+			case *ast.IncDecStmt:
+				if root(n.X) == name {
+					found = true
+				}
+			case *ast.UnaryExpr:
+				if n.Op == token.AND && root(n.X) == name {
+					found = true
+				}
+			case *ast.RangeStmt:
+				if n.Tok == token.ASSIGN && (n.Key != nil && root(n.Key) == name || n.Value != nil && root(n.Value) == name) {
+					found = true
+				}
+			}
+			return !found
+		})
+	}
+	return found
 }
